@@ -1362,7 +1362,7 @@ func c15canon(cs c15Case) string {
 	var b strings.Builder
 	fmt.Fprintf(&b, "%s|%d|%d|%s|%s|%s|%v", cs.Kind, cs.V, cs.V2, cs.From, cs.To, c15vtToks(cs.Types), cs.Values)
 	if cs.Rpt != nil {
-		fmt.Fprintf(&b, "|%s %v %v %s", cs.Rpt.Mode, cs.Rpt.CLI, cs.Rpt.Reverse, cs.Rpt.RootKey)
+		fmt.Fprintf(&b, "|%s %v %v %s %v", cs.Rpt.Mode, cs.Rpt.CLI, cs.Rpt.Reverse, cs.Rpt.RootKey, cs.Rpt.DivideBy)
 		for _, s := range cs.Rpt.Samples {
 			fmt.Fprintf(&b, " %d%v", s.Value, s.Labels)
 		}
@@ -1377,7 +1377,7 @@ func c15canon(cs c15Case) string {
 }
 
 func runC15(c *Ctx) {
-	c.Res.Rule = "scale: every spelling (name, UPPER, Title, plural, UPPER plural, mixed case; printed names; unknown/odd strings) of every unit name of the Lean spec dictionary and of the regenerated table × targets (every unit of the family, auto, minimum, other family, unknown, skip words) × int64 strategies (0, ±1, every unit step ±1 for the pair, rounding ties, 2^53±1, MaxInt64, MinInt64(+1), random widths); mono: neighbouring values around unit steps and rounding ties; pct: value/total pairs around 1%, 99.95%, 100.05%, zero total, extremes; common/sp: 1–4 value types / profiles over compatible and incompatible unit spellings; cli: `pprof -top -unit=…` on generated one-function-per-value profiles (printed flat values = ScaledLabel, flat% = Percentage, one output unit for the report); rpt: report-level labels — profiles with 2–4 numeric tag keys whose units belong to different families and whose values coincide, both sample orders, rendered as tags / traces / top / tree in-process (report.Generate) and tags / traces / tree / -tagroot through the pprof binary; every printed label (tag values, tag weights and totals, sample values, flat/cum/edge values, legend total, tagroot frames) is read back and must lie in the family of ITS OWN unit within display rounding, and agree with the model's label. Non-trivial = the source unit is a unit name by the spec, so the conversion mechanism (sniffUnit → convertUnit/autoScale) is reached (scale/mono); total ≠ 0 (pct); ≥2 compatible types (common); at least one column actually rescaled (sp); tag units of ≥ 2 families, or a known sample unit for top/tree (rpt). Distinct by canonical case text."
+	c.Res.Rule = "scale: every spelling (name, UPPER, Title, plural, UPPER plural, mixed case; printed names; unknown/odd strings) of every unit name of the Lean spec dictionary and of the regenerated table × targets (every unit of the family, auto, minimum, other family, unknown, skip words) × int64 strategies (0, ±1, every unit step ±1 for the pair, rounding ties, 2^53±1, MaxInt64, MinInt64(+1), random widths); mono: neighbouring values around unit steps and rounding ties; pct: value/total pairs around 1%, 99.95%, 100.05%, zero total, extremes; common/sp: 1–4 value types / profiles over compatible and incompatible unit spellings; cli: `pprof -top -unit=…` on generated one-function-per-value profiles (printed flat values = ScaledLabel, flat% = Percentage, one output unit for the report); rpt: report-level labels — profiles with 2–4 numeric tag keys whose units belong to different families and whose values coincide, both sample orders, rendered as tags / traces / top / tree / peek / dot in-process (report.Generate) and tags / traces / tree / -tagroot / peek / dot / top through the pprof binary, with -divide_by ∈ {none, 1024, 1000, 0.001, 3, 60, 0.5, 1e6, 2^20, 7} × output unit ∈ {minimum, auto, fixed units of the sample's or a tag's family} (sample-value labels must be admissible labels of the DIVIDED value: the automatic unit suits the value actually printed); every printed label (tag values, tag weights and totals, sample values, flat/cum/edge values, legend total, tagroot frames) is read back and must lie in the family of ITS OWN unit within display rounding, and agree with the model's label. Non-trivial = the source unit is a unit name by the spec, so the conversion mechanism (sniffUnit → convertUnit/autoScale) is reached (scale/mono); total ≠ 0 (pct); ≥2 compatible types (common); at least one column actually rescaled (sp); tag units of ≥ 2 families, or a known sample unit for top/tree (rpt). Distinct by canonical case text."
 	st := c15Init(c)
 	if !st.alive {
 		return
